@@ -140,6 +140,7 @@ fn phase_name(p: u8) -> &'static str {
         1 => "hammer",
         2 => "recompile",
         4 => "buffer-reuse",
+        5 => "worker-pool",
         _ => "fresh",
     }
 }
@@ -242,6 +243,59 @@ fn buffer_reuse(case: &Case, filters: &[Filter], seq: &[Vec<u8>]) -> Option<Diff
     None
 }
 
+// ---------------------------------------------------------------- long-lived workers
+//
+// Four worker threads that live as long as the process: every case hands them its compiled filters and contexts
+// once more.  Whatever a thread keeps between executions (thread-locals, scratch space, memos) outlives the
+// filters of the earlier cases, which are compiled and dropped on the calling thread.
+type PoolJob = (Arc<Vec<Filter>>, Arc<Vec<ExecutionContext<'static>>>, std::sync::mpsc::Sender<Vec<Vec<u8>>>);
+
+fn pool() -> &'static Vec<std::sync::Mutex<std::sync::mpsc::Sender<PoolJob>>> {
+    static POOL: std::sync::OnceLock<Vec<std::sync::Mutex<std::sync::mpsc::Sender<PoolJob>>>> =
+        std::sync::OnceLock::new();
+    POOL.get_or_init(|| {
+        (0..4)
+            .map(|_| {
+                let (tx, rx) = std::sync::mpsc::channel::<PoolJob>();
+                std::thread::spawn(move || {
+                    for (filters, ctxs, reply) in rx {
+                        let res: Vec<Vec<u8>> =
+                            filters.iter().map(|f| ctxs.iter().map(|c| exec_code(f, c)).collect()).collect();
+                        // the worker lets go of the filters before it answers: the caller frees them
+                        drop(filters);
+                        drop(ctxs);
+                        let _ = reply.send(res);
+                    }
+                });
+                std::sync::Mutex::new(tx)
+            })
+            .collect()
+    })
+}
+
+fn worker_pool(case: &Case, filters: &Arc<Vec<Filter>>, seq: &[Vec<u8>]) -> Option<Diff> {
+    let ctxs: Arc<Vec<ExecutionContext<'static>>> =
+        Arc::new(case.ctxs.iter().map(|c| dec_ctx(&case.info, c)).collect::<Option<Vec<_>>>()?);
+    let mut replies = Vec::new();
+    for w in pool().iter() {
+        let (tx, rx) = std::sync::mpsc::channel();
+        w.lock().ok()?.send((filters.clone(), ctxs.clone(), tx)).ok()?;
+        replies.push(rx);
+    }
+    let mut first = None;
+    for (t, rx) in replies.into_iter().enumerate() {
+        let res = rx.recv_timeout(std::time::Duration::from_secs(600)).ok()?;
+        for (i, row) in res.iter().enumerate() {
+            for (j, got) in row.iter().enumerate() {
+                if first.is_none() && *got != seq[i][j] {
+                    first = Some(Diff { phase: 5, thread: t, filter: i, ctx: j, rep: 0, got: *got });
+                }
+            }
+        }
+    }
+    first
+}
+
 fn run_threads(case: Case) -> Sexp {
     let seq = match reference(&case) {
         Ok(s) => s,
@@ -269,6 +323,9 @@ fn run_threads(case: Case) -> Sexp {
     // same address and length but different bytes - repeated executions must still agree with the reference
     // (a memo keyed by the identity of the input instead of its content would not).
     if let Some(d) = buffer_reuse(&case, &filters, &seq) {
+        return answer(&seq, Some(d));
+    }
+    if let Some(d) = worker_pool(&case, &filters, &seq) {
         return answer(&seq, Some(d));
     }
     let t_n = case.t;
